@@ -333,6 +333,7 @@ BUILTINS = {
     "ASCII_ALPHANUMERIC": cset([[0x30, 0x39], [0x41, 0x5A], [0x61, 0x7A]]),
     "ASCII_HEX_DIGIT": cset([[0x30, 0x39], [0x41, 0x46], [0x61, 0x66]]),
     "ASCII": cset([[0, 0x7F]]),
+    "ASCII_BIN_DIGIT": cset([[0x30, 0x31]]), "ASCII_OCT_DIGIT": cset([[0x30, 0x37]]),
     "NEWLINE": alt(ch("\n"), seq(ch("\r"), ch("\n")), ch("\r")),
 }
 
@@ -507,6 +508,8 @@ def build_filters(pm):
         elif chk["kind"] == "no-space-at":
             bad = seq(*([any1()] * chk["index"] + [ws_set(chk["charset"]), anystar()]))
             fl.append(((rule,), (lambda e, bad=bad: and_(e, not_(bad))), "P3 %s: no space at char %d" % (rule, chk["index"])))
+        elif chk["kind"] == "unknown":
+            raise Unsupported("fn segment rejects some `%s` texts under a condition the model cannot read: %s" % (rule, chk.get("cond", "")))
     return fl
 
 
@@ -940,6 +943,90 @@ def np_divergences(result):
     return out
 
 
+END = 0x110006      # end of input, as a symbol, for continuation expressions
+
+
+def repetition_hazards(grammar, model):
+    """PEG repetitions and options are greedy and never give back.  For every `x*`, `x+`, `x?`, `x{n,m}` reachable from `main`
+    build (continue, stop): continue = one more `x` (with the implicit skip where pest inserts one), stop = the
+    continuation of the parse after the repetition up to the end of input.  A hazard needs a string that starts with a
+    sentence of both (prefix-comparability, decided by the engine); everything else cannot lose a sentence.
+    Knots are expanded in place; a knot that is already being expanded twice on the current path is not expanded again.
+    -> [{"id", "a", "b"}], [{"id", "rule", "node", "context"}]"""
+    pairs, meta, seen = [], [], set()
+    endk = cset([[END, END]])
+
+    def conv(e, atomic, ctx):
+        # a fresh context: knots become symbols (expanded one level below), and a rule reached twice through a knot is
+        # not mistaken for a recursion
+        return model.conv(e, atomic, (ctx[-1],), top=False)
+
+    # knot symbols stand for non-empty sentences: expand them one level; what is nested deeper is "anything non-empty"
+    some = seq(any1(), anystar())
+    body1 = {}
+    for nm, sym in PEST_KNOTS.items():
+        b = model.rule(nm, True)
+        for s2 in list(PEST_KNOTS.values()) + list(ATOMIC_VARIANT.values()):
+            r = _subst_symbol(b, s2, some)
+            if r is not None:
+                b = r
+        body1[sym] = b
+        if sym in ATOMIC_VARIANT:
+            body1[ATOMIC_VARIANT[sym]] = b
+
+    def expand(x):
+        for sym, b in body1.items():
+            r = _subst_symbol(x, sym, b)
+            if r is not None:
+                x = r
+        return x
+
+    def rule_atomicity(name, atomic):
+        ty = grammar.rules[name]["ty"]
+        if ty in ("atomic", "compound_atomic"):
+            return True
+        if ty == "non_atomic":
+            return False
+        return atomic
+
+    def walk(e, k, atomic, ctx, stack):
+        kind = e["k"]
+        sk = eps() if atomic else model.skip
+        if kind == "seq":
+            walk(e["a"], seq(sk, conv(e["b"], atomic, ctx), k), atomic, ctx, stack)
+            walk(e["b"], k, atomic, ctx, stack)
+        elif kind == "choice":
+            walk(e["a"], k, atomic, ctx, stack)
+            walk(e["b"], k, atomic, ctx, stack)
+        elif kind in ("opt", "rep", "rep1", "repn"):
+            x = conv(e["e"], atomic, ctx)
+            again = seq(sk, x)
+            label = "%s|%s" % (ctx[-1], pest_text(e))
+            for which, a in (("first", x), ("next", again)):
+                if kind == "opt" and which == "next":
+                    continue
+                if kind == "rep1" and which == "first":
+                    continue
+                key = (label, which, json.dumps(a, sort_keys=True)[:4000], json.dumps(k, sort_keys=True)[:4000])
+                if key in seen:
+                    continue
+                seen.add(key)
+                pid = "rep|%s|%s|%d" % (label, which, len(pairs))
+                pairs.append({"id": pid, "a": expand(a), "b": expand(k)})
+                meta.append({"id": pid, "rule": ctx[-1], "node": pest_text(e), "which": which, "context": "/".join(ctx[-4:])})
+            inner_k = k if kind == "opt" else seq(star(again), k)
+            walk(e["e"], inner_k, atomic, ctx, stack)
+        elif kind == "ident":
+            name = e["v"]
+            if name in grammar.rules and name not in ("WHITESPACE", "COMMENT"):
+                if stack.count(name) >= (2 if name in PEST_KNOTS else 1):
+                    return
+                walk(grammar.rules[name]["expr"], k, rule_atomicity(name, atomic), ctx + (name,), stack + [name])
+        # predicates, literals, ranges: nothing to do
+    walk(grammar.rules["main"]["expr"], endk, False, ("main",), ["main"])
+    return pairs, meta
+
+
 def analyse(prog, grammar, tier="quick"):
     """Everything the grammar rules need, computed once per (sources, grammar, spec) and cached on disk."""
     import hashlib
@@ -988,7 +1075,10 @@ def analyse(prog, grammar, tier="quick"):
                     oid = "%s|%s|%s" % (rname, pest_text(alts[i]), pest_text(alts[j]))
                     overlaps.append({"id": oid, "a": exprs[i], "b": exprs[j]})
                     meta.append({"id": oid, "rule": rname, "first": pest_text(alts[i]), "second": pest_text(alts[j])})
-    spec["overlap"] = overlaps
+    # greedy-repetition hazards: the continuation expressions make the automata too large as built (16 GB, no result after
+    # 30 min); kept behind a switch until the queries are made tractable
+    rep_pairs, rep_meta = repetition_hazards(grammar, model) if os.environ.get("VF_REP_HAZARDS") == "1" else ([], [])
+    spec["overlap"] = overlaps + rep_pairs
     # grammar facts used elsewhere (C13-R2): can the span of these rules begin / end with blank?
     factq = []
     for rname in grammar.order:
@@ -1013,6 +1103,7 @@ def analyse(prog, grammar, tier="quick"):
     out = {
         "engine": res,
         "overlap_meta": meta,
+        "repetition_meta": rep_meta,
         "applied_filters": model.applied,
         "parser_notes": pm.notes,
         "slots": pm.slots,
